@@ -445,6 +445,22 @@ def runTree (n : Node) (cmds : List Sexp) : Option String := do
   let outs ← cmds.zipIdx.mapM fun (c, k) => runTreeCmd n k c
   pure (join (kv "root" (hexOf (n.root H)) :: outs))
 
+/-- the sub-value (with its type) that a key sequence addresses IN A VALUE: element indices must be below the actual
+    length; pseudo keys and union steps are not view navigations (`navigate_view` has no such step) -/
+def navVal : Ty → Val → List Key → Option (Ty × Val)
+  | t, v, [] => some (t, v)
+  | .vector et _, .seq vs, .idx i :: rest => (vs[i]?).bind fun x => navVal et x rest
+  | .list et _, .seq vs, .idx i :: rest => (vs[i]?).bind fun x => navVal et x rest
+  | .container fs, .seq vs, .idx i :: rest =>
+    match fs[i]?, vs[i]? with
+    | some ft, some x => navVal ft x rest
+    | _, _ => none
+  | .bitvector _, .bits bs, [.idx i] => (bs[i]?).map fun b => (.bool, .num (if b then 1 else 0))
+  | .bitlist _, .bits bs, [.idx i] => (bs[i]?).map fun b => (.bool, .num (if b then 1 else 0))
+  | .bytevector _, .bytes bs, [.idx i] => (bs[i]?).map fun b => (.uint 1, .num b.toNat)
+  | .bytelist _, .bytes bs, [.idx i] => (bs[i]?).map fun b => (.uint 1, .num b.toNat)
+  | _, _, _ => none
+
 def runPath (t : Ty) (v : Option Val) (keys : List Key) : String :=
   let ig := Impl.pathGindex t keys
   let sg := Spec.gindex 1 (some t) keys
@@ -459,7 +475,12 @@ def runPath (t : Ty) (v : Option Val) (keys : List Key) : String :=
     let at_ := match n, ig with
       | some n, some g => getter n g
       | _, _ => none
-    join (base ++ [kv "i.node" (rootO at_)])
+    -- value-dependent navigation: defined exactly when the addressed position exists in the value; then the view found
+    -- there has the root of the addressed sub-value
+    let nv := navVal t v keys
+    join (base ++ [kv "i.node" (rootO at_), kv "i.navroot" (match nv with
+      | some (st, sv) => hexOf (Spec.htr H st sv)
+      | none => "err")])
 
 /-- a negative key is not a key of any type: the path is refused when it is built -/
 def isNegAtom : Sexp → Bool
@@ -517,6 +538,16 @@ def toSOp : Sexp → Option SCmd
   | .list [.atom "mutv", r, k, nv, op] => do
     let nv ← atomNat nv
     pure (.temp [.child (← atomNat r) (← atomNat k), .child nv 0, .mutate (nv + 1) (← toOp op)])
+  -- a mutation through a CHAIN of temporary child views below view r (`view_r.a.b.c.<op>`, or the same target obtained
+  -- with a `Path`): the views on the way are dropped again
+  | .list [.atom "mutt", r, nv, _, .list keys, op] => do
+    let nv ← atomNat nv
+    let ks ← keys.mapM atomNat
+    let r ← atomNat r
+    let rec chain (parent : Nat) (next : Nat) : List Nat → List Impl.SOp
+      | [] => []
+      | k :: rest => .child parent k :: chain next (next + 1) rest
+    pure (.temp (chain r nv ks ++ [.mutate (nv + ks.length - 1) (← toOp op)]))
   -- a write into a throw-away COPY of view r (the harness assigns a summary-backed equal-root element there):
   -- nothing held changes
   | .list [.atom "tmpsum", _, _] => pure (.steps [] false)
@@ -616,6 +647,7 @@ inductive POp where
   | fread (k : Nat)            -- read the whole value through the k-th kept view
   | iterk (k : Nat)            -- the first k items of a plain iteration (a consumer that stops early)
   | childroot (i : Nat)        -- the child VIEW at key i is obtained and asked for its root (nothing below it is read)
+  | obj                        -- to_obj(), as compact JSON
 
 def toPOp : Sexp → Option POp
   | .list [.atom "read"] => some .read
@@ -630,7 +662,9 @@ def toPOp : Sexp → Option POp
   | .list [.atom "sub", i, op] => do pure (.sub (← atomNat i) (← toHOp op))
   | .list [.atom "slice", a, b] => do pure (.slice (← atomNat a) (← atomNat b))
   | .list [.atom "iterk", k] => do pure (.iterk (← atomNat k))
+  | .list [.atom "roiterk", k] => do pure (.iterk (← atomNat k))   -- the same prefix through the read-only iterator
   | .list [.atom "childroot", i] => do pure (.childroot (← atomNat i))
+  | .list [.atom "obj"] => some .obj
   | .list [.atom "bytes"] => some .bytes
   | .list [.atom "root"] => some .root
   | s => (toHOp s).map .mut
@@ -673,6 +707,7 @@ def stepPOp (t : Ty) (n : Node) (op : POp) (forks : List Node := []) : Node × S
     -- the iterator is created (the length is read), then the first k items are read in order
     (n, okStr ((viewLen t n).bind fun ln =>
       (Impl.sliceRead H t n 0 (min k ln)).map fun xs => String.intercalate "," (xs.map valStr)))
+  | .obj => (n, okStr ((Impl.readVal H t n).map fun v => Obj.toJson (Obj.toObj t v)))
   | .childroot i => (n, okStr ((Impl.childOf H t n i).map fun (c : Ty × Node) => hexOf (c.2.root H)))
   | .bytes => (n, okStr ((Impl.serTree H t n).map fun p => hexOf p.1))
   | .root => (n, "ok:" ++ hexOf (n.root H))
